@@ -30,6 +30,8 @@ func defects(validNonce string) []defect {
 		{name: "no-credentials-at-all", user: "-", realm: "-", nonce: "-", mi: "none", wantChallenge: 401},
 		{name: "wrong-key", mi: "wrongkey"},
 		{name: "unknown-user", user: "mallory", mi: "ok"},
+		{name: "unknown-user-empty-key", user: "mallory", mi: "emptykey"},
+		{name: "known-user-empty-key", mi: "emptykey"},
 		{name: "missing-username", user: "-", mi: "ok"},
 		{name: "missing-realm", realm: "-", mi: "ok"},
 		{name: "missing-nonce", nonce: "-", mi: "ok"},
@@ -107,6 +109,9 @@ func build(method uint16, tx [12]byte, attrs func(b *wire.B), user, pass, nonce 
 	case "none":
 	case "wrongkey":
 		b.Integrity(wire.LongTermKey(keyUser, keyRealm, pass+"x"))
+	case "emptykey":
+		// what a client that knows no secret at all can compute: HMAC with the empty key
+		b.Integrity(nil)
 	case "flip":
 		mac := b.MAC(key)
 		mac[d.bit/8] ^= 1 << (d.bit % 8)
